@@ -77,6 +77,10 @@ claim("C16", "lifecycle typestate of the bindings (nil-test dominance on every h
       "Decides per operation that logging cannot dereference an unbound binding (fallback to the built-in logger), that Destroy is idempotent, unbinds everything and clears its state on every path, that a second Refresh is rejected before any effect, that registration panics iff live, that no explicit panic/exit is on the log path and that every interface field invoked unguarded is initialised by every construction path. Full histories up to length 8 are not enumerated.",
       NOTE_COMMON, "DESIGN.md §4 C16")
 
+claim("C17", "recover-discipline and return-shape rules on Parse, reachability of go/exit, writer/reader table agreement between the STRING lexer rule of Expr.g4 and the unquoting routine (strconv's escape switch or the module's own), grammar-alternative vs walker-case agreement, provenance of map keys",
+      "Decides that a panic below Parse becomes (nil, error), that the three return shapes are exactly those specified, that nothing below Parse inside the module can escape recovery (go/os.Exit/log.Fatal), that every escape and raw byte the lexer admits is accepted by the unquoter with the JSON meaning, that every alternative of `value` is handled, and that keys are built as <path>.type / <path>.<field>. Termination/stack depth of ANTLR prediction and exact flattening for all inputs are not decided.",
+      NOTE_COMMON, "DESIGN.md §4 C17")
+
 PENDING_REASON = "check not built yet in this commit (static rule planned in DESIGN.md section 4); no claim is made until the rule exists and has been validated both ways"
 
 def main():
